@@ -14,8 +14,9 @@ import (
 )
 
 type Fact struct {
-	T  string
-	At int // visible to obligations with NFacts > At
+	T       string
+	At      int  // visible to obligations with NFacts > At
+	FromObl bool // an assertion that was checked and is assumed afterwards (not used by reachability covers)
 }
 
 type Obl struct {
@@ -174,7 +175,9 @@ func (un *Unit) oblige(st *State, kind, name string, props []string, goal string
 	un.obls = append(un.obls, o)
 	// an assertion that has been checked may be used as a lemma afterwards
 	if goal != "false" {
-		un.addFact(implies(st.guard, goal))
+		if t := implies(st.guard, goal); t != "true" {
+			un.facts = append(un.facts, Fact{T: t, At: len(un.facts), FromObl: true})
+		}
 	}
 	return o
 }
